@@ -7,6 +7,7 @@
 
 extern crate rustc_abi;
 extern crate rustc_ast;
+extern crate rustc_ast_pretty;
 extern crate rustc_data_structures;
 extern crate rustc_driver;
 extern crate rustc_hir;
@@ -49,16 +50,62 @@ pub fn span_key(sp: Span) -> SpanKey {
     (d.lo.0, d.hi.0, d.ctxt)
 }
 
+/// A derive-helper / tool attribute found on an item, variant or field of the expanded AST.
+#[derive(Clone, Debug)]
+pub struct HelperAttr {
+    pub item: String,
+    pub on: String,
+    pub text: String,
+}
+
 struct Cb {
+    helper_attrs: Vec<HelperAttr>,
     fmt: HashMap<SpanKey, FmtInfo>,
     selected: bool,
 }
 
 struct FmtCollector<'a> {
     out: &'a mut HashMap<SpanKey, FmtInfo>,
+    attrs: &'a mut Vec<HelperAttr>,
+    item_stack: Vec<String>,
+}
+
+impl<'a> FmtCollector<'a> {
+    fn record(&mut self, on: String, attrs: &[rustc_ast::Attribute]) {
+        for a in attrs {
+            if let rustc_ast::AttrKind::Normal(n) = &a.kind {
+                let first = n.item.path.segments.first().map(|s| s.ident.name.as_str().to_string()).unwrap_or_default();
+                if first == "serde" || first == "clap" {
+                    self.attrs.push(HelperAttr {
+                        item: self.item_stack.last().cloned().unwrap_or_default(),
+                        on: on.clone(),
+                        text: rustc_ast_pretty::pprust::attribute_to_string(a),
+                    });
+                }
+            }
+        }
+    }
 }
 
 impl<'ast, 'a> rustc_ast::visit::Visitor<'ast> for FmtCollector<'a> {
+    fn visit_item(&mut self, i: &'ast rustc_ast::Item) {
+        let name = i.kind.ident().map(|id| id.name.as_str().to_string()).unwrap_or_default();
+        self.item_stack.push(name);
+        self.record("item".to_string(), &i.attrs);
+        rustc_ast::visit::walk_item(self, i);
+        self.item_stack.pop();
+    }
+    fn visit_variant(&mut self, v: &'ast rustc_ast::Variant) {
+        self.record(format!("variant {}", v.ident.name.as_str()), &v.attrs);
+        self.item_stack.push(format!("{}::{}", self.item_stack.last().cloned().unwrap_or_default(), v.ident.name.as_str()));
+        rustc_ast::visit::walk_variant(self, v);
+        self.item_stack.pop();
+    }
+    fn visit_field_def(&mut self, f: &'ast rustc_ast::FieldDef) {
+        let n = f.ident.map(|i| i.name.as_str().to_string()).unwrap_or_else(|| "?".to_string());
+        self.record(format!("field {}", n), &f.attrs);
+        rustc_ast::visit::walk_field_def(self, f);
+    }
     fn visit_expr(&mut self, e: &'ast rustc_ast::Expr) {
         if let rustc_ast::ExprKind::FormatArgs(fa) = &e.kind {
             let mut pieces = Vec::new();
@@ -109,7 +156,7 @@ impl rustc_driver::Callbacks for Cb {
         }
         let resolver_and_krate = tcx.resolver_for_lowering().borrow();
         let krate = &resolver_and_krate.1;
-        let mut v = FmtCollector { out: &mut self.fmt };
+        let mut v = FmtCollector { out: &mut self.fmt, attrs: &mut self.helper_attrs, item_stack: Vec::new() };
         rustc_ast::visit::walk_crate(&mut v, krate);
         Compilation::Continue
     }
@@ -129,7 +176,14 @@ impl rustc_driver::Callbacks for Cb {
         let adts = cx.dump_adts();
         let mir = mirdump::dump_mir(&cx);
         let meta = dump_meta(tcx, &crate_name);
+        let ha = J::Arr(
+            self.helper_attrs
+                .iter()
+                .map(|h| J::obj().with("item", J::s(h.item.clone())).with("on", J::s(h.on.clone())).with("text", J::s(h.text.clone())))
+                .collect(),
+        );
         let all = J::obj()
+            .with("helper_attrs", ha)
             .with("meta", meta)
             .with("hir", hir)
             .with("adts", adts)
@@ -183,6 +237,6 @@ fn main() {
         i += 1;
     }
     let selected = wanted.split(',').any(|w| w == crate_name);
-    let mut cb = Cb { fmt: HashMap::new(), selected };
+    let mut cb = Cb { helper_attrs: Vec::new(), fmt: HashMap::new(), selected };
     rustc_driver::run_compiler(&args, &mut cb);
 }
